@@ -46,7 +46,11 @@ func (fs LocalFileSystem) Open(ctx context.Context, name string) (io.ReadCloser,
 	if err != nil {
 		return nil, err
 	}
-	return os.Open(p)
+	f, err := os.Open(p)
+	if err != nil {
+		return nil, errFromOS(err)
+	}
+	return f, nil
 }
 
 func fileInfoFromOS(p string, fi os.FileInfo) *FileInfo {
@@ -77,6 +81,10 @@ func errFromOS(err error) error {
 	var perr *fs.PathError
 	if errors.As(err, &perr) {
 		err = fmt.Errorf("%s: %w", perr.Op, perr.Err)
+	}
+	var lerr *os.LinkError
+	if errors.As(err, &lerr) {
+		err = fmt.Errorf("%s: %w", lerr.Op, lerr.Err)
 	}
 
 	// ENOTDIR is reported for a path below a regular file: nothing is mapped
@@ -183,11 +191,11 @@ func (fs LocalFileSystem) Create(ctx context.Context, name string, body io.ReadC
 
 	if _, err := io.Copy(wc, body); err != nil {
 		os.Remove(p)
-		return nil, false, err
+		return nil, false, errFromOS(err)
 	}
 	if err := wc.Close(); err != nil {
 		os.Remove(p)
-		return nil, false, err
+		return nil, false, errFromOS(err)
 	}
 
 	fi, err = fs.Stat(ctx, name)
@@ -224,7 +232,7 @@ func (fs LocalFileSystem) Mkdir(ctx context.Context, name string) error {
 		return err
 	}
 	if err := os.Mkdir(p, 0755); os.IsExist(err) {
-		return NewHTTPError(http.StatusMethodNotAllowed, err)
+		return NewHTTPError(http.StatusMethodNotAllowed, errFromOS(err))
 	} else {
 		return errFromOS(err)
 	}
@@ -246,10 +254,10 @@ func copyRegularFile(src, dst string, perm os.FileMode) error {
 	defer dstFile.Close()
 
 	if _, err := io.Copy(dstFile, srcFile); err != nil {
-		return err
+		return errFromOS(err)
 	}
 
-	return dstFile.Close()
+	return errFromOS(dstFile.Close())
 }
 
 // checkCopyMovePaths refuses to copy or move a resource onto itself, into one
